@@ -199,3 +199,95 @@ Proof.
   induction s as [|b s IH]; intros H; [reflexivity|]. inversion H; subst.
   unfold key in *. rewrite segs_ascii by assumption. cbn [map fst]. f_equal. apply IH. assumption.
 Qed.
+
+(* ---------------------------------------------------------------- *)
+(* find_first / find_last: least / greatest matching position *)
+
+Lemma prefixb_skipn_all p l j : (length l <= j)%nat -> prefixb p (skipn j l) = prefixb p [].
+Proof. intros H. rewrite skipn_all2 by exact H. reflexivity. Qed.
+
+Lemma find_first_some p l k0 k :
+  find_first p l k0 = Some k ->
+  exists d, k = (k0 + d)%nat /\ (d <= length l)%nat /\ prefixb p (skipn d l) = true /\
+            forall j, (j < d)%nat -> prefixb p (skipn j l) = false.
+Proof.
+  revert k0. induction l as [|x l IH]; intros k0; cbn [find_first].
+  - destruct (prefixb p []) eqn:E; [|discriminate]. intros H. inversion H; subst.
+    exists 0%nat. split; [lia|]. split; [lia|]. split; [exact E|]. intros j Hj. lia.
+  - destruct (prefixb p (x :: l)) eqn:E.
+    + intros H. inversion H; subst. exists 0%nat. split; [lia|]. split; [simpl; lia|].
+      split; [exact E|]. intros j Hj. lia.
+    + intros H. apply IH in H as (d & -> & Hd & Hm & Hl). exists (S d).
+      split; [lia|]. split; [simpl; lia|]. split; [exact Hm|].
+      intros j Hj. destruct j as [|j]; [exact E|]. cbn [skipn]. apply Hl. lia.
+Qed.
+
+Lemma find_first_none p l k0 :
+  find_first p l k0 = None -> forall j, prefixb p (skipn j l) = false.
+Proof.
+  revert k0. induction l as [|x l IH]; intros k0; cbn [find_first].
+  - destruct (prefixb p []) eqn:E; [discriminate|]. intros _ j. rewrite skipn_nil. exact E.
+  - destruct (prefixb p (x :: l)) eqn:E; [discriminate|]. intros H j.
+    destruct j as [|j]; [exact E|]. cbn [skipn]. eapply IH. exact H.
+Qed.
+
+Lemma find_first_shift p l k0 : find_first p l k0 = option_map (fun d => (k0 + d)%nat) (find_first p l 0).
+Proof.
+  revert k0. induction l as [|x l IH]; intros k0; cbn [find_first].
+  - destruct (prefixb p []); simpl; [f_equal; lia|reflexivity].
+  - destruct (prefixb p (x :: l)); simpl; [f_equal; lia|].
+    rewrite (IH (S k0)), (IH 1%nat). destruct (find_first p l 0); simpl; [f_equal; lia|reflexivity].
+Qed.
+
+Lemma find_last_none_aux p l k0 :
+  find_last p l k0 = None -> forall j, prefixb p (skipn j l) = false.
+Proof.
+  revert k0. induction l as [|y l IH]; intros k0 F j; cbn [find_last] in F.
+  - rewrite skipn_nil. destruct (prefixb p []); [discriminate|reflexivity].
+  - destruct (find_last p l (S k0)) eqn:F2; [discriminate|].
+    destruct (prefixb p (y :: l)) eqn:E; [discriminate|].
+    destruct j as [|j]; [exact E|]. cbn [skipn]. eapply IH. exact F2.
+Qed.
+
+Lemma find_last_some p l k0 k :
+  find_last p l k0 = Some k ->
+  exists d, k = (k0 + d)%nat /\ (d <= length l)%nat /\ prefixb p (skipn d l) = true /\
+            forall j, (d < j)%nat -> (j <= length l)%nat -> prefixb p (skipn j l) = false.
+Proof.
+  revert k0. induction l as [|x l IH]; intros k0; cbn [find_last].
+  - destruct (prefixb p []) eqn:E; [|discriminate]. intros H. inversion H; subst.
+    exists 0%nat. split; [lia|]. split; [lia|]. split; [exact E|].
+    intros j Hj Hj2. simpl in Hj2. lia.
+  - destruct (find_last p l (S k0)) as [r|] eqn:F.
+    + intros H. inversion H; subst. apply IH in F as (d & -> & Hd & Hm & Hl).
+      exists (S d). split; [lia|]. split; [simpl; lia|]. split; [exact Hm|].
+      intros j H1 H2. destruct j as [|j]; [lia|]. cbn [skipn]. apply Hl; simpl in H2; lia.
+    + destruct (prefixb p (x :: l)) eqn:E; [|discriminate]. intros H. inversion H; subst.
+      exists 0%nat. split; [lia|]. split; [simpl; lia|]. split; [exact E|].
+      intros j H1 H2. destruct j as [|j]; [lia|]. cbn [skipn]. eapply find_last_none_aux. exact F.
+Qed.
+
+Lemma find_last_none p l k0 :
+  find_last p l k0 = None -> forall j, prefixb p (skipn j l) = false.
+Proof. apply find_last_none_aux. Qed.
+
+(* both searches see the same set of matches *)
+Lemma find_first_last_some p l :
+  (exists k, find_first p l 0 = Some k) <-> (exists k, find_last p l 0 = Some k).
+Proof.
+  split; intros [k H].
+  - destruct (find_last p l 0) eqn:F; [eexists; reflexivity|].
+    apply find_first_some in H as (d & _ & _ & Hm & _).
+    rewrite (find_last_none _ _ _ F d) in Hm. discriminate.
+  - destruct (find_first p l 0) eqn:F; [eexists; reflexivity|].
+    apply find_last_some in H as (d & _ & _ & Hm & _).
+    rewrite (find_first_none _ _ _ F d) in Hm. discriminate.
+Qed.
+
+Lemma find_first_le_last p l a b :
+  find_first p l 0 = Some a -> find_last p l 0 = Some b -> (a <= b)%nat.
+Proof.
+  intros Ha Hb. apply find_first_some in Ha as (d & -> & Hd & Hm & Hl).
+  apply find_last_some in Hb as (e & -> & He & Hn & Hg).
+  destruct (le_lt_dec d e); [lia|]. rewrite (Hl e) in Hn by lia. discriminate.
+Qed.
